@@ -360,7 +360,7 @@ func visitInstr(fr *frame, instr ssa.Instruction) continuation {
 
 	case *ssa.IndexAddr:
 		x := fr.get(instr.X)
-		idx := fr.i.sym.concInt(fr.get(instr.Index))
+		idx := fr.i.sym.indexSplit(x, fr.get(instr.Index))
 		switch x := x.(type) {
 		case []value:
 			fr.env[instr] = &x[asInt64(idx)]
@@ -372,7 +372,7 @@ func visitInstr(fr *frame, instr ssa.Instruction) continuation {
 
 	case *ssa.Index:
 		x := fr.get(instr.X)
-		idx := fr.i.sym.concInt(fr.get(instr.Index))
+		idx := fr.i.sym.indexSplit(x, fr.get(instr.Index))
 
 		switch x := x.(type) {
 		case array:
